@@ -19,8 +19,9 @@ open WinFin
 /-- **using_resource_at_most_once.** Whatever the history and whichever callbacks raise, `using` calls
 `dispose()` on the resource it created at most once; with no resource (factory returned `None` or raised)
 it never does. -/
-theorem using_resource_at_most_once {α} (c : Cfg) (hc : c.oper = .using) (sp : SyncPhase α) (evs : List (Ev α)) :
+theorem using_resource_at_most_once {α} (c : Cfg) (hc : c.oper = .using) (hsd : c.srcDisposeRaises = false) (sp : SyncPhase α) (evs : List (Ev α)) :
     resCount (run c sp evs).log ≤ 1 ∧ (c.resf ≠ .some → resCount (run c sp evs).log = 0) := by
+  haveI : NoSrcFault c := ⟨hsd⟩
   rcases using_subscribePhase (α := α) c hc sp with h | ⟨hf, h0⟩
   · have h := using_run_inv c hc evs _ _ h
     simp only [run]
@@ -38,10 +39,11 @@ terminal notification was delivered to the subscriber or the history contains a 
 otherwise.  Since this holds for every history it holds for every prefix of one: the disposal happens at
 the first such event ("whichever comes first", `using_released_at_first_trigger`).  The observable-factory
 failure path is included: there the subscribed source is `throw(exception)` (`c.obsfRaises`). -/
-theorem using_resource_once {α} (c : Cfg) (hc : c.oper = .using) (sp : SyncPhase α) (evs : List (Ev α))
+theorem using_resource_once {α} (c : Cfg) (hc : c.oper = .using) (hsd : c.srcDisposeRaises = false) (sp : SyncPhase α) (evs : List (Ev α))
     (hres : c.resf = .some) (hh : (subscribePhase c sp : St α).d.handle = true) :
     (resCount (run c sp evs).log = 1 ↔ (hasTerm (run c sp evs).log = true ∨ hasDispose evs = true)) ∧
     (resCount (run c sp evs).log = 0 ↔ ¬ (hasTerm (run c sp evs).log = true ∨ hasDispose evs = true)) := by
+  haveI : NoSrcFault c := ⟨hsd⟩
   rcases using_subscribePhase (α := α) c hc sp with h | ⟨hf, _⟩
   · have h := using_run_inv c hc evs _ _ h
     simp only [run]
@@ -52,10 +54,11 @@ theorem using_resource_once {α} (c : Cfg) (hc : c.oper = .using) (sp : SyncPhas
 
 /-- **using_released_on_source_terminal.** Syntactic sufficient condition: if the history contains a
 terminal notification of the source or a `dispose`, the resource has been disposed exactly once. -/
-theorem using_released_on_source_terminal {α} (c : Cfg) (hc : c.oper = .using) (sp : SyncPhase α)
+theorem using_released_on_source_terminal {α} (c : Cfg) (hc : c.oper = .using) (hsd : c.srcDisposeRaises = false) (sp : SyncPhase α)
     (evs : List (Ev α)) (hres : c.resf = .some) (hh : (subscribePhase c sp : St α).d.handle = true)
     (ht : hasSrcTerminal evs = true ∨ hasDispose evs = true) :
     resCount (run c sp evs).log = 1 := by
+  haveI : NoSrcFault c := ⟨hsd⟩
   rcases using_subscribePhase (α := α) c hc sp with h | ⟨hf, _⟩
   · have hs := using_run_sad c hc evs _ _ h (Or.inr ht)
     have h := using_run_inv c hc evs _ _ h
@@ -75,14 +78,15 @@ theorem run_append {α} (c : Cfg) (sp : SyncPhase α) (a b : List (Ev α)) :
 /-- **using_released_at_first_trigger.** "Whichever comes first": if after the prefix `pre` the resource is
 still held, and the next event is a `dispose` or a terminal notification of the source, then right after that
 event it has been disposed (once), and nothing later changes that. -/
-theorem using_released_at_first_trigger {α} (c : Cfg) (hc : c.oper = .using) (sp : SyncPhase α)
+theorem using_released_at_first_trigger {α} (c : Cfg) (hc : c.oper = .using) (hsd : c.srcDisposeRaises = false) (sp : SyncPhase α)
     (pre post : List (Ev α)) (e : Ev α) (hres : c.resf = .some)
     (hh : (subscribePhase c sp : St α).d.handle = true)
     (he : (match e with | .src n => n.isTerminal | .dispose => true) = true) :
     resCount (run c sp (pre ++ [e])).log = 1 ∧ resCount (run c sp (pre ++ e :: post)).log = 1 := by
+  haveI : NoSrcFault c := ⟨hsd⟩
   have key : ∀ l : List (Ev α), resCount (run c sp (pre ++ e :: l)).log = 1 := by
     intro l
-    apply using_released_on_source_terminal c hc sp _ hres hh
+    apply using_released_on_source_terminal c hc hsd sp _ hres hh
     cases e with
     | src n => left; simp [hasSrcTerminal]; exact Or.inr (Or.inl he)
     | dispose => right; simp [hasDispose]
@@ -112,8 +116,9 @@ example : (run (α := Nat) { oper := .using, resf := .none } {} [.src .completed
 /-- **finally_action_exactly_once_after.** `finally_action`: for every history and whichever callbacks raise
 (the action itself included), the action is invoked at most once; exactly once iff a terminal notification was
 delivered to the subscriber or the history contains a `dispose`, zero times otherwise; and no downstream callback
-runs after it (so it runs *after* the terminal callback).  Includes termination inside `subscribe` and the
-`except: action(); raise` path. -/
+runs after it (so it runs *after* the terminal callback).  Includes termination inside `subscribe`, the
+`except: action(); raise` path, and the fault "`dispose()` of the inner subscription raises"
+(`c.srcDisposeRaises` arbitrary: `try: subscription.dispose() finally: action()`). -/
 theorem finally_action_exactly_once_after {α} (c : Cfg) (hc : c.oper = .finallyAction) (sp : SyncPhase α)
     (evs : List (Ev α)) :
     actCount .fin (run c sp evs).log ≤ 1 ∧
@@ -138,10 +143,12 @@ it`), `subscribe` having returned a handle: for every history and whichever call
 itself included — the action is invoked at most once; exactly once iff a terminal notification was delivered to the
 subscriber or the history contains a `dispose`, zero times otherwise; and no downstream callback runs after it. -/
 theorem do_finally_exactly_once_after {α} (c : Cfg) (hc : c.oper = .doFinally) (hfx : c.doFinallyAsIs = false)
+    (hsd : c.srcDisposeRaises = false)
     (sp : SyncPhase α) (evs : List (Ev α)) (hh : (subscribePhase c sp : St α).d.handle = true) :
     actCount .fin (run c sp evs).log ≤ 1 ∧
     (actCount .fin (run c sp evs).log = 1 ↔ (hasTerm (run c sp evs).log = true ∨ hasDispose evs = true)) ∧
     noEmitAfterAct .fin (run c sp evs).log = true := by
+  haveI : NoSrcFault c := ⟨hsd⟩
   rcases dofin_subscribePhase (α := α) c hc hfx sp with h | hf
   · have h := dofin_run_inv c hc hfx evs _ _ h
     obtain ⟨cnt, wi, sad, cur, dst, ust, trg, ret, nh, ord⟩ := h
@@ -159,8 +166,10 @@ theorem do_finally_exactly_once_after {α} (c : Cfg) (hc : c.oper = .doFinally) 
 /-- **do_finally_at_most_once.** `do_finally` (fixed), also when `subscribe` itself raised and whichever callbacks
 raise: at most one invocation, after every downstream callback. -/
 theorem do_finally_at_most_once {α} (c : Cfg) (hc : c.oper = .doFinally) (hfx : c.doFinallyAsIs = false)
+    (hsd : c.srcDisposeRaises = false)
     (sp : SyncPhase α) (evs : List (Ev α)) :
     actCount .fin (run c sp evs).log ≤ 1 ∧ noEmitAfterAct .fin (run c sp evs).log = true := by
+  haveI : NoSrcFault c := ⟨hsd⟩
   rcases dofin_subscribePhase (α := α) c hc hfx sp with h | hf
   · have h := dofin_run_inv c hc hfx evs _ _ h
     simp only [run]
@@ -171,16 +180,17 @@ theorem do_finally_at_most_once {α} (c : Cfg) (hc : c.oper = .doFinally) (hfx :
 /-- **finally_exactly_once_after** (the DESIGN.md statement, both operators). -/
 theorem finally_exactly_once_after {α} (c : Cfg) (sp : SyncPhase α) (evs : List (Ev α))
     (hc : c.oper = .finallyAction ∨
-      (c.oper = .doFinally ∧ c.doFinallyAsIs = false ∧ (subscribePhase c sp : St α).d.handle = true)) :
+      (c.oper = .doFinally ∧ c.doFinallyAsIs = false ∧ c.srcDisposeRaises = false ∧
+        (subscribePhase c sp : St α).d.handle = true)) :
     (actCount .fin (run c sp evs).log = 1 ↔ (hasTerm (run c sp evs).log = true ∨ hasDispose evs = true)) ∧
     (actCount .fin (run c sp evs).log = 0 ↔ ¬ (hasTerm (run c sp evs).log = true ∨ hasDispose evs = true)) ∧
     (∀ pre post e, (run c sp evs).log = pre ++ e :: post → e.isAct .fin = true → ∀ x ∈ post, x.isEmit = false) := by
   have key : actCount .fin (run c sp evs).log ≤ 1 ∧
       (actCount .fin (run c sp evs).log = 1 ↔ (hasTerm (run c sp evs).log = true ∨ hasDispose evs = true)) ∧
       noEmitAfterAct .fin (run c sp evs).log = true := by
-    rcases hc with hc | ⟨hc, hfx, hh⟩
+    rcases hc with hc | ⟨hc, hfx, hsd, hh⟩
     · exact finally_action_exactly_once_after c hc sp evs
-    · exact do_finally_exactly_once_after c hc hfx sp evs hh
+    · exact do_finally_exactly_once_after c hc hfx hsd sp evs hh
   obtain ⟨h1, h2, h3⟩ := key
   refine ⟨h2, ?_, fun pre post e hl he => noEmitAfterAct_spec .fin _ pre post e h3 hl he⟩
   rw [← h2]; omega
@@ -215,6 +225,11 @@ example : (run (α := Nat) { oper := .finallyAction } {} [.src (.next 1), .dispo
 example : (run (α := Nat) { oper := .finallyAction } { emits := [.completed], exn := some "boom" } []).log =
     [.emit .completed false, .act .fin none false, .escape "boom"] := by decide
 example : (subscribePhase (α := Nat) { oper := .doFinally } { emits := [.completed] }).d.handle = true := by decide
+/-- the inner subscription's `dispose()` raises: the action still runs, the exception reaches the disposer -/
+example : (run (α := Nat) { oper := .finallyAction, srcDisposeRaises := true } {} [.src (.next 1), .dispose]).log =
+    [.emit (.next 1) false, .srcDispose, .act .fin none false, .escape "srcd"] := by decide
+example : (run (α := Nat) { oper := .finallyAction, srcDisposeRaises := true } {} [.src .completed]).log =
+    [.emit .completed false, .srcDispose, .act .fin none false, .escape "srcd"] := by decide
 
 
 /-! ## do_action and the do_* variants -/
@@ -231,6 +246,7 @@ theorem do_transparent_unless_raise {α} (c : Cfg) (q : Quiet c) (sp : SyncPhase
     view (run c sp evs).log = view (run c.ident sp evs).log ∧
     delivered (run c sp evs).log = delivered (run c.ident sp evs).log ∧
     (run c sp evs).d = (run c.ident sp evs).d := by
+  haveI : NoSrcFault c := ⟨q.sd⟩
   have h := sim_run c q sp evs
   refine ⟨h.v, ?_, h.d⟩
   rw [← delivered_view, h.v, delivered_view]
@@ -246,6 +262,7 @@ theorem do_callbacks_once_in_order {α} (c : Cfg) (hp : Plain c) (q : Quiet c) (
     cbShape c (run c sp evs).log ∧
     (c.oper = .doOnSubscribe → actCount .subscribe (run c sp evs).log = 1 ∧
       (run c sp evs).log.head? = some (.act .subscribe none false)) := by
+  haveI : NoSrcFault c := ⟨q.sd⟩
   obtain ⟨_, shp, cnt, hd⟩ := ok_run c hp q sp evs
   refine ⟨shp, fun hop => ?_⟩
   have hk : kOf c = 1 := by simp [kOf, hop]
@@ -255,10 +272,12 @@ theorem do_callbacks_once_in_order {α} (c : Cfg) (hp : Plain c) (q : Quiet c) (
 action runs exactly once iff a terminal notification was delivered or the history contains a `dispose`, zero times
 otherwise, after every downstream callback. -/
 theorem do_on_dispose_exactly_once {α} (c : Cfg) (hc : c.oper = .doOnDispose) (hnr : ∀ k, c.actRaises k = false)
+    (hsd : c.srcDisposeRaises = false)
     (sp : SyncPhase α) (evs : List (Ev α)) (hh : (subscribePhase c sp : St α).d.handle = true) :
     actCount .dispose (run c sp evs).log ≤ 1 ∧
     (actCount .dispose (run c sp evs).log = 1 ↔ (hasTerm (run c sp evs).log = true ∨ hasDispose evs = true)) ∧
     noEmitAfterAct .dispose (run c sp evs).log = true := by
+  haveI : NoSrcFault c := ⟨hsd⟩
   rcases dod_subscribePhase (α := α) c hc hnr sp with h | ⟨hf, _⟩
   · have h := dod_run_inv c hc hnr evs _ _ h
     obtain ⟨cnt, sad, cur, dst, ust, trg, hdl, ret, ord⟩ := h
@@ -284,7 +303,7 @@ example : (run (α := Nat) { oper := .doAfterTerminate } {} [.src (.next 1), .sr
     [.emit (.next 1) false, .emit .completed false, .srcDispose, .act .afterTerminate none false] := by decide
 example : (run (α := Nat) { oper := .doOnDispose } {} [.src (.next 1), .dispose, .src .completed]).log =
     [.emit (.next 1) false, .act .dispose none false, .srcDispose] := by decide
-example : Quiet { oper := .doAction } := ⟨fun _ => rfl, fun h => (by cases h), fun h => (by cases h)⟩
+example : Quiet { oper := .doAction } := ⟨fun _ => rfl, fun h => (by cases h), fun h => (by cases h), rfl⟩
 example : (run (α := Nat) { oper := .doAction, subRaises := fun k => k == 1 } { emits := [.next 1] }
       [.src (.next 2), .src (.next 3), .dispose, .src (.next 4)]).log =
     [.act .next (some (.next 1)) false, .emit (.next 1) false, .act .next (some (.next 2)) false, .emit (.next 2) true,
